@@ -78,7 +78,7 @@ def rel_texts():
 # ends in white space, and final tokens that look like numbers to int() but are not array indices
 BS_TOKENS = ["C:\\new", "a\\u0041", "dir\\", "a", "%41"]
 TRAIL_SUFFIXES = ["/foo\u3000", "/a ", "/\u3000", "/b\t", "/c\n", "/d\xa0", "/ "]
-NONIDX = ["01", "+1", "1_0", "-0", " 1", "\u0661", "1 ", "00", "1.0", "0x1"]
+NONIDX = ["01", "+1", "1_0", "-0", " 1", "\u0661", "1 ", "00", "1.0", "0x1", "-1", "-5", "-12"]
 
 
 def _esc(acc, record=True, only=None):
